@@ -22,7 +22,9 @@
 (*   initialBasic of lp.Simplex).                                             *)
 EXTENDS LpDefs, TLC, Json
 
-CONSTANTS Mode,            \* "exh": every program of the bounded space; "rnd": Count pseudo-random ones; "named": classics
+CONSTANTS Mode,            \* "exh": every program of the bounded space; "rnd": Count pseudo-random ones;
+                           \* "slack": pseudo-random [R | I] x = b with cost [cR | 0] (what Convert produces from
+                           \* R x <= b, x >= 0; with b >= 0 the slack basis is feasible); "named": classics
           M, N,            \* rows, columns  (M <= N)
           ANeg, APos,      \* entries of A range over -ANeg .. APos
           BNeg, BPos,      \* entries of b
@@ -44,19 +46,19 @@ Start(k) == StreamStart(Seed, k)
 ASSUME Mode = "exh" => Count = SpaceSize(Radices, 1)
 
 (******************************* named classics ********************************)
-\* Degenerate programs on which textbook pivoting rules cycle (integer-scaled, slack columns last).
-\*  1 Chvatal (1983) p.31:   max 10x1-57x2-9x3-24x4, optimum 1  (here min = -1)
-\*  2 Beale (1955), rows scaled by 4 / 2 / 1, slacks rescaled:   optimum -1/20 -> scaled cost x20: see below
-\*  3 Kuhn's example (Balinski-Tucker 1969)                      optimum -2
-\*  4 Marshall-Suurballe (1969)                                  optimum -1/2 ... scaled
+\* Degenerate programs on which textbook pivoting rules cycle.  Rows are scaled to integers (the slack of a
+\* scaled row is rescaled with it, so the slack columns stay unit vectors); slack columns last.  The spec
+\* computes their optimum like that of any other program; nothing about them is assumed.
+\*  1 Chvatal (1983):  max 10x1-57x2-9x3-24x4 ; .5x1-5.5x2-2.5x3+9x4 <= 0 ; .5x1-1.5x2-.5x3+x4 <= 0 ; x1 <= 1
+\*  2 Beale (1955):    min -3/4x1+20x2-1/2x3+6x4 ; 1/4x1-8x2-x3+9x4 <= 0 ; 1/2x1-12x2-1/2x3+3x4 <= 0 ; x3 <= 1
+\*  3 Kuhn:            min -2x1-3x2+x3+12x4 ; -2x1-9x2+x3+9x4 <= 0 ; 1/3x1+x2-1/3x3-2x4 <= 0 ; 2x1+3x2-x3-12x4 <= 2
 Named == <<
    [A |-> << <<1, -11, -5, 18, 1, 0, 0>>, <<1, -3, -1, 2, 0, 1, 0>>, <<1, 0, 0, 0, 0, 0, 1>> >>,
     b |-> <<0, 0, 1>>, c |-> <<-10, 57, 9, 24, 0, 0, 0>>],
-   \* Beale: min -3/4 x4 + 20 x5 - 1/2 x6 + 6 x7 ; 1/4 x4 - 8 x5 - x6 + 9 x7 + s1 = 0 ; 1/2 x4 - 12 x5 - 1/2 x6 + 3 x7 + s2 = 0 ; x6 + s3 = 1
-   \* rows 1,2 multiplied by 4 and 2 with s1' = 4 s1, s2' = 2 s2; cost multiplied by 4
+   \* Beale: rows 1, 2 multiplied by 4 and 2, cost multiplied by 4
    [A |-> << <<1, -32, -4, 36, 1, 0, 0>>, <<1, -24, -1, 6, 0, 1, 0>>, <<0, 0, 1, 0, 0, 0, 1>> >>,
     b |-> <<0, 0, 1>>, c |-> <<-3, 80, -2, 24, 0, 0, 0>>],
-   \* Kuhn: min -2x1 -3x2 + x3 + 12x4 ; -2x1 -9x2 + x3 + 9x4 + s1 = 0 ; 1/3 x1 + x2 - 1/3 x3 - 2 x4 + s2 = 0 ; 2x1+3x2-x3-12x4 + s3 = 2
+   \* Kuhn: row 2 multiplied by 3
    [A |-> << <<-2, -9, 1, 9, 1, 0, 0>>, <<1, 3, -1, -6, 0, 1, 0>>, <<2, 3, -1, -12, 0, 0, 1>> >>,
     b |-> <<0, 0, 2>>, c |-> <<-2, -3, 1, 12, 0, 0, 0>>]
    >>
@@ -73,9 +75,11 @@ ASSUME Mode = "named" => (M = 3 /\ N = 7 /\ Count = 24 * Len(Named))
 Program(k) ==
     LET raw == IF Mode = "exh" THEN Digits(k, Radices, 1) ELSE Stream(Start(k), Radices, 1)
         v(i) == Low(i) + raw[i]
-    IN [A |-> [i \in 1 .. M |-> [j \in 1 .. N |-> v((i - 1) * N + j)]],
+        slack(j) == Mode = "slack" /\ j > N - M
+    IN [A |-> [i \in 1 .. M |-> [j \in 1 .. N |-> IF slack(j) THEN (IF j - (N - M) = i THEN 1 ELSE 0)
+                                                   ELSE v((i - 1) * N + j)]],
         b |-> [i \in 1 .. M |-> v(M * N + i)],
-        c |-> [j \in 1 .. N |-> v(M * N + M + j)]]
+        c |-> [j \in 1 .. N |-> IF slack(j) THEN 0 ELSE v(M * N + M + j)]]
 
 Bases == IncSeqs(N, M)
 
